@@ -61,11 +61,11 @@ func (a *asm) pushU(x uint64) {
 	binary.BigEndian.PutUint64(buf[:], x)
 	a.pushBytes(buf[:])
 }
-func (a *asm) pushBig(x *big.Int)           { a.pushBytes(x.Bytes()) }
-func (a *asm) pushAddr(x common.Address)    { a.pushBytes(x[:]) }
-func (a *asm) newLabel() int                { a.nlab++; return a.nlab }
-func (a *asm) place(l int)                  { a.pos[l] = len(a.b) }
-func (a *asm) dest(l int)                   { a.place(l); a.op(evm.JUMPDEST) }
+func (a *asm) pushBig(x *big.Int)        { a.pushBytes(x.Bytes()) }
+func (a *asm) pushAddr(x common.Address) { a.pushBytes(x[:]) }
+func (a *asm) newLabel() int             { a.nlab++; return a.nlab }
+func (a *asm) place(l int)               { a.pos[l] = len(a.b) }
+func (a *asm) dest(l int)                { a.place(l); a.op(evm.JUMPDEST) }
 func (a *asm) pushLabel(l int) {
 	a.b = append(a.b, byte(evm.PUSH2), 0, 0)
 	a.fixups = append(a.fixups, fixup{len(a.b) - 2, l})
@@ -283,7 +283,7 @@ func genWorld(r *rng.R) *world {
 		w.Input = hex.EncodeToString(r.Bytes(r.Range(1, 100)))
 	}
 	// gas and value
-	w.Gas = []uint64{0, 1, 2300, 21000, 100000, 100000, 1000000, 1000000, 1000000, 3000000, 3000000, 3000000, 10000000, 10000000, 30000000}[r.Intn(15)]
+	w.Gas = []uint64{0, 1, 2300, 21000, 100000, 100000, 1000000, 1000000, 3000000, 3000000, 3000000, 10000000, 10000000, 10000000, 30000000, 30000000}[r.Intn(16)]
 	bal := bigOf(org.Balance)
 	if w.Kind == "tokencall" {
 		bal = new(big.Int)
@@ -433,15 +433,15 @@ func (g *gen) expr(a *asm, d int) {
 func (g *gen) memOff(a *asm) {
 	r := g.r
 	switch p := r.Intn(100); {
-	case p < 72:
+	case p < 78:
 		a.pushU(uint64(r.Intn(8) * 32))
-	case p < 82:
-		a.pushU(uint64(r.Intn(3000)))
 	case p < 88:
+		a.pushU(uint64(r.Intn(3000)))
+	case p < 93:
 		a.pushU(uint64(r.Intn(1 << 16)))
-	case p < 92:
+	case p < 95:
 		a.pushU(uint64(1<<20) + uint64(r.Intn(1<<26)))
-	case p < 97:
+	case p < 98:
 		a.pushBytes(hexBytes(interesting[6+r.Intn(len(interesting)-6)]))
 	default:
 		g.expr(a, 1)
@@ -451,13 +451,13 @@ func (g *gen) memOff(a *asm) {
 func (g *gen) memSize(a *asm) {
 	r := g.r
 	switch p := r.Intn(100); {
-	case p < 60:
+	case p < 64:
 		a.pushU(pick(r, 0, 1, 4, 32, 32, 64, 100))
-	case p < 82:
-		a.pushU(uint64(r.Intn(600)))
 	case p < 88:
+		a.pushU(uint64(r.Intn(600)))
+	case p < 93:
 		a.pushU(uint64(r.Intn(1 << 15)))
-	case p < 96:
+	case p < 97:
 		a.pushBytes(hexBytes(interesting[6+r.Intn(len(interesting)-6)]))
 	default:
 		g.expr(a, 1)
@@ -501,11 +501,11 @@ func (g *gen) tokenExpr(a *asm) {
 func (g *gen) valueExpr(a *asm) {
 	r := g.r
 	switch p := r.Intn(100); {
-	case p < 50:
-		a.pushU(0)
 	case p < 66:
+		a.pushU(0)
+	case p < 74:
 		a.pushU(1)
-	case p < 78: // own balance
+	case p < 80: // own balance
 		a.op(evm.ADDRESS, evm.BALANCE)
 	case p < 86: // own balance + 1
 		a.op(evm.ADDRESS, evm.BALANCE)
@@ -573,7 +573,7 @@ func (g *gen) callStmt(a *asm, d int) {
 func (g *gen) useFlag(a *asm, d int) {
 	r := g.r
 	switch p := r.Intn(100); {
-	case p < 45:
+	case p < 55:
 		a.op(evm.POP)
 	case p < 75: // fail (or stop) depending on the flag
 		if r.Bool() {
@@ -597,6 +597,13 @@ func (g *gen) useFlag(a *asm, d int) {
 }
 
 func (g *gen) createStmt(a *asm, d int) {
+	g.createOne(a, d)
+	for g.r.Chance(0.3) { // factories deploy several children
+		g.createOne(a, d)
+	}
+}
+
+func (g *gen) createOne(a *asm, d int) {
 	r := g.r
 	two := r.Chance(0.4)
 	var initLen uint64
@@ -626,7 +633,11 @@ func (g *gen) createStmt(a *asm, d int) {
 	} else {
 		a.pushU(memAt)
 	}
-	g.valueExpr(a)
+	if r.Chance(0.6) {
+		a.pushU(0)
+	} else {
+		g.valueExpr(a)
+	}
 	if two {
 		a.op(evm.CREATE2)
 	} else {
@@ -773,6 +784,9 @@ func (g *gen) stmt(a *asm, d int) {
 			g.stmt(a, d-1)
 		}
 		a.dest(l)
+	case p < 865:
+		g.expr(a, 2)
+		a.op(evm.POP)
 	case p < 920: // unless (cond) terminate here
 		g.cond(a)
 		l := a.newLabel()
@@ -810,9 +824,11 @@ func (g *gen) stmt(a *asm, d int) {
 		a.op(evm.GAS, evm.GT)
 		a.pushLabel(l)
 		a.op(evm.JUMPI)
-	case p < 975: // junk bytes
+	case p < 971: // junk bytes
 		a.raw(r.Bytes(r.Range(1, 3))...)
-	case p < 988: // DUPn / SWAPn on a possibly too shallow stack
+	case p < 983:
+		g.jumpOver(a)
+	case p < 993: // DUPn / SWAPn on a possibly too shallow stack
 		n := r.Intn(16)
 		if r.Bool() {
 			a.op(evm.OpCode(int(evm.DUP1)+n), evm.POP)
@@ -878,21 +894,21 @@ func (g *gen) cond(a *asm) {
 func (g *gen) terminal(a *asm) {
 	r := g.r
 	switch p := r.Intn(100); {
-	case p < 18:
+	case p < 16:
 		a.op(evm.STOP)
-	case p < 36:
+	case p < 32:
 		g.memSize(a)
 		g.memOff(a)
 		a.op(evm.RETURN)
-	case p < 54:
+	case p < 48:
 		g.memSize(a)
 		g.memOff(a)
 		a.op(evm.REVERT)
-	case p < 62:
+	case p < 54:
 		a.raw(0xfe)
-	case p < 66: // undefined opcode
+	case p < 58: // undefined opcode
 		a.raw([]byte{0x0c, 0x1e, 0x21, 0x4f, 0xa5, 0xb0, 0xe5, 0xf6, 0xfb, 0xef}[r.Intn(10)])
-	case p < 76:
+	case p < 74:
 		g.addrExpr(a)
 		a.op(evm.SELFDESTRUCT)
 	case p < 82: // burn all gas
@@ -933,8 +949,29 @@ func (g *gen) terminal(a *asm) {
 	}
 }
 
+// jumpOver: an unconditional forward jump over a few bytes of embedded data.
+func (g *gen) jumpOver(a *asm) {
+	l := a.newLabel()
+	a.pushLabel(l)
+	a.op(evm.JUMP)
+	a.raw(g.r.Bytes(g.r.Intn(6))...)
+	a.dest(l)
+}
+
 func (g *gen) body(a *asm, n int) {
 	g.budget = n
+	if g.r.Chance(0.4) { // dispatcher-like prologue
+		if g.r.Chance(0.6) {
+			g.jumpOver(a)
+		} else {
+			g.cond(a)
+			l := a.newLabel()
+			a.pushLabel(l)
+			a.op(evm.JUMPI)
+			g.terminal(a)
+			a.dest(l)
+		}
+	}
 	for g.budget > 0 {
 		g.stmt(a, 2)
 	}
